@@ -46,6 +46,21 @@ CHECKS = {
         text="Generated str/int/float/bool/None values (all Unicode planes, NUL, 1e5-character strings, 4000-digit ints, nan/inf) as splitters and extras under ASCII and non-ASCII salts: a group must come back and v / str(v) must share it. Exploration only.",
         note="Lone surrogates and ints beyond CPython's str() digit limit are excluded (stated in evidence).",
         ref="4.15"),
+    "C06": dict(
+        technique="property-based testing / fuzzing: token-level and character-level mutation of grammatical texts (plus atheris coverage-guided raw-text fuzzing in the thorough tier) against an independent Earley recogniser of the documented grammar",
+        text="Mutated texts the reference recogniser rejects must make ExperimentEvaluator raise and parse_source raise or return None. Exploration only.",
+        note="Trusts the reference lexer + Earley recogniser transcribed from language/README.rst (self-tested on the 13 repository programs and a table of invalid texts); ambiguous readings are skipped and counted.",
+        ref="4.6"),
+    "C07": dict(
+        technique="property-based testing: grammar-directed sentence generator over an adversarial identifier pool and large shapes; totality oracle (compiles; outcome is a group of the program or the unroutable error)",
+        text="Every generated text is confirmed a sentence by the independent recogniser, then must compile and evaluate cleanly on type-compatible inputs. Known finding K1 (Python-reserved / helper-name identifiers) is excluded by construction and probed separately. Exploration only.",
+        note="Trusts the reference recogniser and the typed generator's notion of type-compatible inputs.",
+        ref="4.7"),
+    "C08": dict(
+        technique="property-based testing: metamorphic relation between trivia variants (whitespace / comments) of one token sequence; AST equality and result equality",
+        text="Generated trivia sequences between every token pair; parse_source(variant) must equal parse_source(base) and evaluations must agree. Exploration only.",
+        note="Trivia never goes inside the two-word tokens; comment bodies avoid */ and /* (documentation ambiguous on nesting).",
+        ref="4.8"),
 }
 
 NOT_YET = "check not built yet (work in progress; see DESIGN.md for the planned generator and oracle)"
